@@ -485,6 +485,15 @@ class Interp(ExprMixin, StmtMixin):
             h = self.hooks.get("text_method")
             if h:
                 return h(self, path, recv, name, args, kwargs)
+        if isinstance(recv, SSeq) and recv.kind == "list" and name in ("append", "extend") and len(args) == 1 and not kwargs:
+            # in-place growth of a list of symbolic length: the object itself now denotes the concatenation (every alias sees it)
+            tail = SSeq(1, lambda i, v=args[0]: v, "list") if name == "append" else self.iter_seq(args[0], path)
+            if tail.elem_raises is not None:
+                self.materialise_raises(tail, path)
+            old = SSeq(recv.length, recv.at, "list", recv.elem_raises)
+            new = concat_seqs([old, tail], "list")
+            recv.length, recv.at, recv.elem_raises = new.length, new.at, new.elem_raises
+            return None
         if isinstance(recv, SSeq) and name == "append":
             raise Unsupported("append to symbolic sequence")
         h = self.hooks.get("method")
